@@ -565,6 +565,19 @@ func (e *c02Exp) inline() string {
 
 func (e *c02Exp) block(ind string) []string {
 	switch e.K {
+	case "match":
+		// match <target> with | Case v -> body ... : Args[0] = target, Args[1+i] = arm of case i (declaration
+		// order, every case present), Xs[i] = its binder ("" = no payload, "_" = payload ignored)
+		d := c02DeclOf(e.Name)
+		out := []string{ind + "match " + e.Args[0].inline() + " with"}
+		for i, m := range d.Members {
+			pat := m.Name
+			if m.Ty != nil {
+				pat += " " + e.Xs[i]
+			}
+			out = append(out, ind+"| "+pat+" -> "+e.Args[1+i].inline())
+		}
+		return out
 	case "let":
 		return append([]string{ind + "let " + e.Name + " = " + e.Args[0].inline()}, e.Args[1].block(ind)...)
 	case "lettup":
@@ -602,6 +615,22 @@ func (e *c02Exp) sexp(blind bool) string {
 		return "(" + e.K + ")"
 	case "arith", "cmp", "eq", "tuple", "slice", "if":
 		return "(" + e.K + " " + j + ")"
+	case "match":
+		// the eliminator of the union: U<Ts> -> (payload_1 -> R) -> ... -> R, arms as lambdas
+		d := c02DeclOf(e.Name)
+		arms := []string{xs[0]}
+		for i, m := range d.Members {
+			if m.Ty == nil {
+				arms = append(arms, "(lam () "+xs[1+i]+")")
+			} else {
+				b := e.Xs[i]
+				if b == "_" {
+					b = fmt.Sprintf("?ign%d", i)
+				}
+				arms = append(arms, "(lam ("+Sq(b)+") "+xs[1+i]+")")
+			}
+		}
+		return "(global " + Sq("?match:"+e.Name) + " " + strings.Join(arms, " ") + ")"
 	case "record":
 		if c02DeclOf(e.Name).hasAnyField() {
 			// a field of type any accepts every value: construction = a function generic in that field
@@ -672,6 +701,23 @@ func (e *c02Exp) mkSigs(out map[string]string) {
 			}
 		}
 		out["?mk:"+e.Name] = fmt.Sprintf("(%s %d (%s) %s)", Sq("?mk:"+e.Name), k, strings.Join(as, " "), c02Named(e.Name).sexp())
+	}
+	if e.K == "match" {
+		d := c02DeclOf(e.Name)
+		var targs []*c02Ty
+		for i := 0; i < d.K; i++ {
+			targs = append(targs, c02Var(i))
+		}
+		r := c02Var(d.K)
+		as := []string{c02Named(d.Name, targs...).sexp()}
+		for _, m := range d.Members {
+			if m.Ty == nil {
+				as = append(as, "(fun () "+r.sexp()+")")
+			} else {
+				as = append(as, c02Fun([]*c02Ty{m.Ty}, r).sexp())
+			}
+		}
+		out["?match:"+e.Name] = fmt.Sprintf("(%s %d (%s) %s)", Sq("?match:"+e.Name), d.K+1, strings.Join(as, " "), r.sexp())
 	}
 	for _, a := range e.Args {
 		a.mkSigs(out)
